@@ -358,6 +358,14 @@ pub fn generate(seed: u64, flavor: &str) -> RunSpec {
     // --- policy and preemptible sites
     let policy = if threads == 1 {
         Policy::Seq
+    } else if storm && rng.chance(50, 100) {
+        // one caller frozen in the middle of an operation (often a compilation) while the
+        // others run whole operations: the shape multi-step races in construction need
+        Policy::Stall {
+            victim: rng.below(threads),
+            at: rng.range(1, 12) as u32,
+            p: *rng.pick(&[100u32, 400]),
+        }
     } else {
         match rng.below(100) {
             0..=9 => Policy::Seq,
